@@ -25,7 +25,7 @@ CHECKS = {
              "what": "linear::function_t value/gradient vs mean loss + l1 mean|W| + l2/2 mean W^2"},
             {"name": "gboost", "timing_dependent": True, "harness": "c09_objectives", "args": ["--stage", "gboost"], "share": 0.3, "crash_is_violation": True,
              "what": "gboost bias / scale / grads objectives vs their definitions"},
-            {"name": "sched", "harness": "c09_sched", "args_quick": ["--budget", "2", "--maxW", "3"], "args_thorough": ["--budget", "3", "--maxW", "3"],
+            {"name": "sched", "harness": "c09_sched", "args_quick": ["--budget", "2", "--maxW", "3"], "args_thorough": ["--budget", "3", "--maxW", "3", "--split", "frontier"],
              "crash_is_violation": True, "share": 0.3,
              "what": "one objective evaluation with W workers under the scheduler: every schedule gives the one-thread value"},
         ],
